@@ -56,7 +56,7 @@ PROPS = {
         "theorems": T("C15", ["recogniseBare_iff", "recognise_iff_immutable", "recognise_iff_testonly", "recognise_iff_mutable",
                                "keyword_exact_list", "keyword_exact_implements", "keyword_exact_bare", "list_names_valid",
                                "constructor_names", "ignore_codes_upper", "prefilter_complete", "near_miss_inert"]),
-        "suites": ["gram"],
+        "suites": ["gram", ("prog", {"focus": "ANN:IKTMP"})],
         "assumptions": [
             "comment texts are byte strings; RE2's \\s, \\w and the identifier classes are ASCII, '.' excludes only LF",
             "the regexes and the Aho-Corasick pre-filter are not translated into Lean: they are tied to the recogniser functions by the bounded-exhaustive + fuzz correspondence (as the property itself prescribes)",
@@ -104,5 +104,78 @@ PROPS = {
         ],
         "trusted_base": ["hand-written whole-program model GGV.Model.Prog (annotation reading, indices, walks, @ignore scopes, filters) of annotations/, indexing/, immutable/, constructor/, testonly/, packageonly/, ignore/, tied by the prog correspondence (real analyzers in-process vs model on generated + corpus modules)",
                          "APF extractor (go/ast + go/types, independent of gogreement) as the abstraction function; go/types for type information"],
+    },
+    "C06": {
+        "theorems": T("C06", ["facts_serialisable", "fact_types_distinct", "export_unconditional", "checkers_require_reader", "depends_only_on_direct_imports", "import_uniform", "gob_norm_invariant"]),
+        "suites": [("bin", {"mode": "drivers"}), ("prog", {"focus": "ANN:IKTMP", "n": 80})],
+        "binary": True, "table_diag": True,
+        "assumptions": ["PARTIAL: gob's byte-level encoding, vetx file handling by cmd/go and export-data importers are exercised (both drivers, subsets, gob sanity check), not modelled",
+                        "facts are modelled as the annotation lists without positions (no checker reads an imported position)"],
+        "trusted_base": ["hand-written whole-program model GGV.Model.Prog, tied by the prog correspondence (real analyzers in-process vs model)", "APF extractor (go/ast + go/types, independent of gogreement)"] + ["tables T3/T4 regenerated from /repo (analyzers, run functions, fact structs)", "x/tools drivers (multichecker, unitchecker, checker), cmd/go vet"],
+    },
+    "C07": {
+        "theorems": T("C07", ["scope_file", "scope_decl", "scope_stmt", "scope_stmt_none", "scope_line", "scope_line_after_decl", "inline_iff", "declIndex_spec",
+                               "ignore_exact_report", "ignore_exact_detect", "marker_codes_upper", "raise_independent_of_comments", "ignoreOps_startsValid"]),
+        "suites": ["ignore"],
+        "assumptions": ["scope theorems assume MonoCut / NextCut (in preorder, once a node starts at/after the comment all later nodes do): decidable, true of go/ast trees for comments inside bodies, and the markers of every generated program are compared with the real ReadIgnoreAnnotations",
+                        "'the following statement' is formalised as the first node in preorder that starts after the comment (the node with the smallest start position after it, outermost), in its whole extent",
+                        "marker starts are >= 1 (PosValid: comment positions and line starts are real positions)"],
+        "trusted_base": ["hand-written whole-program model GGV.Model.Prog, tied by the prog correspondence (real analyzers in-process vs model)", "APF extractor (go/ast + go/types, independent of gogreement)"],
+    },
+    "C08": {
+        "theorems": T("C08", ["exclude_module", "hier_members", "exclude_all_empty", "junk_excludes_nothing", "exclude_filter_report", "exclude_commutes_with_dedup", "ignoreOps_exclude"]),
+        "suites": [("bin", {"mode": "exclude"})],
+        "binary": True, "table_diag": True,
+        "assumptions": ["case-insensitivity of the option value is C18's (check codes are upper-cased when the list is parsed)"],
+        "trusted_base": ["hand-written whole-program model GGV.Model.Prog, tied by the prog correspondence (real analyzers in-process vs model)", "APF extractor (go/ast + go/types, independent of gogreement)"] + ["code table T1 regenerated from /repo"],
+    },
+    "C09": {
+        "theorems": T("C09", ["no_annotations_no_diagnostics", "no_annotations_no_facts", "near_miss_inert", "env_empty"]) + ["GGV.Model.Prog.readAnnotations_empty", "GGV.Model.Prog.annOfTypeLine_inert", "GGV.Model.Prog.annOfFuncLine_inert"],
+        "suites": [("prog", {"noann": "1", "nocorpus": "1", "n": 120}), ("bin", {"mode": "corpus"})],
+        "binary": True,
+        "assumptions": ["@implements diagnostics are part of the C05 model; the emptiness theorem covers the four walks, IMPL emptiness (no annotation => early return) is tied by the corpus and noann runs"],
+        "trusted_base": ["hand-written whole-program model GGV.Model.Prog, tied by the prog correspondence (real analyzers in-process vs model)", "APF extractor (go/ast + go/types, independent of gogreement)"],
+    },
+    "C10": {
+        "theorems": T("C10", ["contains_index_safe", "contains_lookup_some", "render_total", "window_index_safe", "ignore_set_wellformed", "run_total"]),
+        "suites": [("bin", {"mode": "crash"}), ("prog", {"focus": "PANIC", "n": 150}), ("prog", {"focus": "PANIC", "n": 60, "scan": "1", "testfiles": "1", "nocorpus": "1"})],
+        "binary": True,
+        "assumptions": ["PARTIAL: panics inside go/types, go/packages, the drivers; memory exhaustion; scheduler hangs are outside the model", "termination of the modelled logic is Lean's structural recursion over finite lists"],
+        "trusted_base": ["hand-written whole-program model GGV.Model.Prog, tied by the prog correspondence (real analyzers in-process vs model)", "APF extractor (go/ast + go/types, independent of gogreement)"],
+    },
+    "C11": {
+        "theorems": T("C11", ["shared_state_justified", "shared_state_inventory", "once_deterministic", "inv_step"]) + ["GGV.Props.C12.index_order_free", "GGV.Props.C12.reported_keys_order_free"],
+        "suites": [("bin", {"mode": "determinism"})],
+        "binary": True, "table_diag": True,
+        "assumptions": ["PARTIAL: the Go memory model and races inside x/tools are outside the model; sync.Once's contract (Do returns only after the first f completed) is assumed",
+                        "the race detector is search support only (thorough tier / after a mismatch); no claim rests on it"],
+        "trusted_base": ["hand-written whole-program model GGV.Model.Prog, tied by the prog correspondence (real analyzers in-process vs model)", "APF extractor (go/ast + go/types, independent of gogreement)"] + ["table T6 regenerated from /repo (package-level variables and their write sites, by go/ast + go/types)"],
+    },
+    "C12": {
+        "theorems": T("C12", ["move_decl", "perm_decls", "annotations_order_free", "index_order_free", "reported_keys_order_free", "plain_order_free", "checkImmutable_decls", "checkConstructor_decls"]),
+        "suites": [("layout", {"kind": "layout"})],
+        "assumptions": ["blank lines, plain comments, gofmt and local renaming change only positions / local identifiers: invariance under them is tied by the metamorphic layout suite on the real analyzers, not proved",
+                        "moving declarations between files is compared without file-level @ignore comments (a file-level comment legitimately follows the file, not the declaration)"],
+        "trusted_base": ["hand-written whole-program model GGV.Model.Prog, tied by the prog correspondence (real analyzers in-process vs model)", "APF extractor (go/ast + go/types, independent of gogreement)"],
+    },
+    "C13": {
+        "theorems": T("C13", ["classify_respects_identity", "respell_invariant", "typeInfo_norm", "varTypeInfo_norm", "typeName_norm", "paren_invariant"]),
+        "suites": [("layout", {"kind": "spelling"})],
+        "assumptions": ["type identity is modelled up to aliases (go/types' Alias / Pointer / Named structure is kept by the extractor); a renamed import changes nothing the model reads"],
+        "trusted_base": ["hand-written whole-program model GGV.Model.Prog, tied by the prog correspondence (real analyzers in-process vs model)", "APF extractor (go/ast + go/types, independent of gogreement)"],
+    },
+    "C14": {
+        "theorems": T("C14", ["shouldSkip_char", "scan_tests_like_any", "tonl_never_in_tests", "excluded_inert", "no_diag_in_excluded", "imm_site_pos", "ctor_site_pos"]),
+        "suites": [("excl", {}), ("excl", {"scan": "1"}), ("excl", {"paths": "zz,gen_"}), ("excl", {"scan": "1", "paths": "zz_,in_test"})],
+        "assumptions": ["declarations in excluded files still exist for the type checker; the theorem keeps the type information fixed"],
+        "trusted_base": ["hand-written whole-program model GGV.Model.Prog, tied by the prog correspondence (real analyzers in-process vs model)", "APF extractor (go/ast + go/types, independent of gogreement)"],
+    },
+    "C17": {
+        "theorems": T("C17", ["codes_documented", "codes_are_the_sixteen", "doc_url_by_category", "analyzer_owns_category", "five_checkers", "render_header", "inline_ignore_removes", "inline_ignore_keeps_others", "diag_in_pkg_file"]),
+        "suites": [("bin", {"mode": "wellformed"})],
+        "binary": True, "table_diag": True,
+        "assumptions": ["'exactly one code': the bracketed token right after 'error: ' is in the table and no OTHER table code occurs bracketed in the header (CTOR/TONL messages repeat their own code)",
+                        "exit status is x/tools multichecker's behaviour: observed (text mode: 3 when any diagnostic), not modelled"],
+        "trusted_base": ["hand-written whole-program model GGV.Model.Prog, tied by the prog correspondence (real analyzers in-process vs model)", "APF extractor (go/ast + go/types, independent of gogreement)"] + ["tables T1, T2, T3, T8 regenerated from /repo and its book"],
     },
 }
